@@ -126,3 +126,45 @@ package push
 //@   loop 1 invariant ghost.chanrecv[responder] >= 0
 //@   ensures [a_poll_that_gives_up_does_not_leave_its_responder_registered] ghost.chanrecv[responder] == 0 ==>
 //@       !(ghost.cm_has[arr(b.responders)][str(id)] && ival(ghost.cm_val[arr(b.responders)][str(id)]) == responder)
+
+// ---- the topic tables hold caches or nil (what Unicast/Broadcast assume of an entry) -------------
+//
+// Every store into b.messages or into a client's topic table, in the functions that write them:
+// a fresh non-nil *sync.Map / *MessageCache, or the nil that marks a denied topic.
+
+//@ func (*Broker).subscribe
+//@   prop C19
+//@   flag typeassert=panic
+//@   havoc
+//@   requires b != nil
+//@   modifies ghost.*
+//@   atcall LoadOrStore [tables_hold_fresh_non_nil_objects] arg2 != nil && ival(arg2) != 0
+//@   ensures [subscribed_afterwards_unless_it_already_was] result ==> ghost.sm_has[ival(ghost.sm_val[addr(b.messages)][str(id)])][str(topic)]
+
+//@ func (*Broker).Deny
+//@   prop C19
+//@   flag typeassert=panic
+//@   havoc
+//@   requires b != nil
+//@   modifies ghost.*
+//@   atcall Store [a_denied_topic_is_marked_by_nil] arg2 == nil
+
+// Broadcast: per client exactly what Unicast does
+//@ func (*Broker).Broadcast$1
+//@   prop C19
+//@   flag typeassert=panic
+//@   havoc
+//@   results cont
+//@   requires result != nil
+//@   stable result
+//@   requires [topic_tables_hold_caches_or_nil] ghost.sm_val[ival(value)][str(topic)] != nil ==> as(ghost.sm_val[ival(value)][str(topic)], *MessageCache) != nil
+//@   modifies ghost.*
+//@   let C = as(ghost.sm_val[ival(value)][str(topic)], *MessageCache)
+//@   atcall Append [only_into_the_cache_of_this_client_and_topic] arg0 == C && same(arg1.Data, data) && arg1.From == from
+//@   atcall response [accepted_message_is_in_its_cache_exactly_once_when_the_poller_is_woken] len(C.m) == old(len(C.m)) + 1 &&
+//@       same(C.m[len(C.m) - 1].Data, data) && C.m[len(C.m) - 1].From == from
+//@   atcall response [the_right_poller_is_woken] arg2 == id
+//@   ensures [every_client_is_visited] cont
+//@   ensures [reported_accepted_iff_subscribed_and_not_denied] haskey(result, id) &&
+//@       result[id] == (old(ghost.sm_has[ival(value)][str(topic)]) && old(ghost.sm_val[ival(value)][str(topic)]) != nil)
+//@   ensures [the_poller_is_woken_once_per_accepted_message] ghost.woken == old(ghost.woken) + ite(result[id], 1, 0)
